@@ -57,6 +57,12 @@ DSL = {
     "empty": (["empty"], ["", "a"]),
     "integer": (N("Integer", 0, 255), ["0", "255", "256", "07"]),
     "surrogate": (["lit", "\ud800"], ["\ud800", "x"]),
+    # format characters around a match (variation selector, zero-width joiner, combining accent): nothing may treat
+    # them differently from any other character when positions and context windows are computed
+    # capturing groups right after an escaped backslash / next to escaped parentheses (group detection by text is easy to get wrong)
+    "bs_capture": (["op", "+", ["lit", "\\"], N("Capture", D)], ["\\5", "\\\\7", "5", "x\\42"]),
+    "paren_capture": (["op", "+", ["op", "+", ["lit", "("], N("Capture", N("OneOrMore", L))], ["lit", ")"]], ["(ab)", "(a)(b)", "()", "f(x)"]),
+    "heart": (["lit", "\u2764"], ["\u2764\ufe0f", "\U0001f469\u200d\u2764\ufe0f\u200d\U0001f468", "a\u2764\u200db", "\u2764"]),
 }
 
 # hand-written (escape=False) valid regexes: C11 is about matching "all patterns"
@@ -84,7 +90,8 @@ def words_of(name):
     return (DSL.get(name) or RAW.get(name))[1]
 
 
-FILLER = ["the", "Quick", "42", "x=1", "λόγος", "naïve", "—", "end.", "_", "日本", "0"]
+FILLER = ["the", "Quick", "42", "x=1", "λόγος", "naïve", "—", "end.", "_", "日本", "0",
+          "\u2764\ufe0f", "\U0001f3f3\ufe0f\u200d\U0001f308", "e\u0301", "\u200d", "x\ufe0f", "\u200b"]
 
 
 def make_text(rng, names, max_words=8, multiline=None, final_newline=None):
